@@ -84,11 +84,22 @@ def check_history(case):
     vs = []
     cur = copy.deepcopy(case["model"])
     grid = SM.grid(cur)
+    # constants that are only given their value later in the history: until then an element without equation is 0.0
+    late = {}
+    for op in case["ops"]:
+        if op[0] == "define_late":
+            c = next((c for c in cur["constants"] if c["name"] == op[1]), None)
+            if c is not None and op[1] not in late:
+                late[op[1]] = c["value"]
     try:
-        model, elems = SM.build_dsl(cur, name="c08")
+        model, elems = SM.build_dsl(dict(cur, constants=[c for c in cur["constants"] if c["name"] not in late] +
+                                         [{"name": n, "value": None} for n in late]), name="c08") if late else SM.build_dsl(cur, name="c08")
     except Exception as e:
         info["status"] = "dsl-rejected"
         return info, vs
+    for c in cur["constants"]:
+        if c["name"] in late:
+            c["value"] = 0.0
     names = SM.element_names(cur)
     evaluated = set()
     last_edit = None
@@ -156,6 +167,20 @@ def check_history(case):
                     info["status"] = "fragile"
                     return info, []
                 deps = _deps(cur)
+            elif kind == "define_late":
+                target = op[1]
+                if target in late:
+                    if any(target in deps.get(y, ()) for y in evaluated if y != target):
+                        info["nontrivial"] = True
+                    c = next(c for c in cur["constants"] if c["name"] == target)
+                    c["value"] = late.pop(target)
+                    elems[target].equation = c["value"]
+                    last_edit = "constant-first-definition"
+                    try:
+                        r = ref()
+                    except E.Fragile:
+                        info["status"] = "fragile"
+                        return info, []
             elif kind == "reset":
                 model.reset_cache()
             elif kind == "runs":
@@ -208,7 +233,7 @@ def history_strategy(max_n=8):
         ops = []
         nops = draw(st.integers(2, 10))
         for _ in range(nops):
-            k = draw(st.sampled_from(["eval", "eval", "eval_all", "set_eq", "set_init", "set_const", "reset", "runs"]))
+            k = draw(st.sampled_from(["eval", "eval", "eval_all", "set_eq", "set_init", "set_const", "reset", "runs", "define_late"]))
             if k == "eval":
                 ops.append(["eval", draw(st.sampled_from(names)), draw(st.integers(0, max_n))])
             elif k == "eval_all":
@@ -227,6 +252,8 @@ def history_strategy(max_n=8):
                             draw(st.one_of(st.sampled_from([0.0, 3.0, 50.0, 100.0]), st.sampled_from(consts).map(lambda n: ["ref", n])))])
             elif k == "set_const":
                 ops.append(["set_const", draw(st.sampled_from(consts)), draw(st.sampled_from([0.5, 1.0, 2.0, 7.0, 20.0]))])
+            elif k == "define_late":
+                ops.append(["define_late", draw(st.sampled_from(consts))])
             elif k == "reset":
                 ops.append(["reset"])
             else:
